@@ -21,8 +21,8 @@ func pairCases(cfg engine.Config, kinds []int64, ops []int64) []engine.Case {
 }
 
 // allOps are the indices of the non-temporary templates of c06.Ops; coreOps the quick subset.
-var allOps = []int64{0, 1, 2, 3, 4, 5, 6, 7, 8, 9, 10, 11, 12, 13, 14, 15, 16, 19, 20, 21, 22, 23}
-var coreOps = []int64{0, 1, 3, 4, 5, 7, 8, 9, 10, 12, 13, 14, 22}
+var allOps = []int64{0, 1, 2, 3, 4, 5, 6, 7, 8, 9, 10, 11, 12, 13, 14, 15, 16, 19, 20, 21, 22, 23, 24, 25}
+var coreOps = []int64{0, 1, 3, 4, 5, 7, 8, 9, 10, 12, 13, 14, 22, 24, 25}
 
 func init() {
 	reg(&property{
